@@ -8,9 +8,11 @@ completion policy, and `os.getpgid` / `os.killpg` of that module record kills.
 Scope
   forward DAGs with <= N ops (op i may depend on op j only for i < j; listing
   order of exe_deps fixed) x parallelizable assignment x outcome per op in
-  {ok, nonzero, launch_error, sync} x jobs in {1,2,3} x stop_on_first_error x
-  unknown-pid injection {never, one unknown pid before every real completion}
-  x ALL completion orders (every choice of the next finishing in-flight pid).
+  {ok, nonzero, launch_error, sync} x jobs in {1,2,3} (jobs = 3 for configurations
+  with >= 3 parallelizable ops; otherwise it cannot differ from jobs = 2) x
+  stop_on_first_error x unknown-pid injection {never, one unknown pid before
+  every real completion} (injection under jobs = 2) x ALL completion orders
+  (every choice of the next finishing in-flight pid).
       quick    : N = 4; for 4 ops at most two ops deviate from "ok"
       thorough : N = 4 with the full outcome product; plus 5 ops with at most
                  one op deviating from "ok"
@@ -22,6 +24,7 @@ import contextlib
 import io
 import itertools
 import random
+import re
 import signal
 import time
 
@@ -58,8 +61,8 @@ _UNKNOWN_PID = 999999
 
 def _scope(tier):
     s = ("forward DAGs with <=4 ops x parallelizable assignments x outcomes {ok,nonzero,launch_error,"
-         "sync} (4 ops: <=2 not ok) x jobs {1,2,3} x stop_on_first_error x unknown-pid injection "
-         "x all completion orders")
+         "sync} (4 ops: <=2 not ok) x jobs {1,2,3} (3 only with >=3 parallelizable ops) x "
+         "stop_on_first_error x unknown-pid injection (with jobs=2) x all completion orders")
     if tier == "thorough":
         s = s.replace("(4 ops: <=2 not ok)", "(full product)") + "; plus 5 ops with <=1 op not ok"
     return s
@@ -86,6 +89,22 @@ def _configs(tier):
                 for o in outs:
                     out.append((d, p, o))
     return out
+
+
+def _run_modes(par):
+    """(jobs, stop_on_first_error, unknown-pid mode) combinations of one
+    configuration.  jobs = 3 only differs from jobs = 2 when three parallelizable
+    ops can be in flight, so it is run for configurations with >= 3
+    parallelizable ops; unknown pids are injected under jobs = 2 (the handling
+    of an unknown pid does not depend on the number of slots)."""
+    modes = []
+    for jobs in (1, 2, 3):
+        if jobs == 3 and sum(1 for p in par if p) < 3:
+            continue
+        for stop in (False, True):
+            for unknown_mode in ((False, True) if jobs == 2 else (False,)):
+                modes.append((jobs, stop, unknown_mode))
+    return modes
 
 
 # --------------------------------------------------------------------------
@@ -256,6 +275,7 @@ class _Env:
         self.ConductorError = ConductorError
         self.FakeOp = _make_fakeop_class()
         self.idents = [G.ident("//:op%d" % i) for i in range(6)]
+        self.wd = G.Watchdog()
         self._saved = (X.SigchldHelper, X.os)
         X.SigchldHelper = _FakeSigchld
         X.os = _FakeOs(real_os)
@@ -336,14 +356,23 @@ def _run_once(env, deps, par, outcomes, jobs, stop, unknown_mode, choices, tally
     raised = None
     blocked = None
     with contextlib.redirect_stdout(buf):
+        env.wd.arm()
         try:
             executor.run_plan(plan, object(), stop_on_first_error=stop)
         except _Blocked as b:
             blocked = b
+        except G.NonTermination as nt:
+            env.wd.trips += 1
+            blocked = nt
+        except env.ConductorError as ex:
+            # includes the errors FakeOp raises on purpose and run_plan re-raises
+            raised = ex
         except Exception as ex:  # noqa: BLE001 -- observation about the code under test
             if G.raised_by_harness(ex):
                 raise
             raised = ex
+        finally:
+            env.wd.disarm()
     ev = world.events
     names = ["op%d" % i for i in range(n)]
     inp = None
@@ -497,7 +526,7 @@ def _run_once(env, deps, par, outcomes, jobs, stop, unknown_mode, choices, tally
 
     # ---- C03 report and exit status
     tally.ev(REPORT, bool(exp_failed))
-    out_lines = [_strip_ansi(l) for l in buf.getvalue().split("\n")]
+    out_lines = _ANSI.sub("", buf.getvalue()).split("\n")
     failed_sec = _section(out_lines, "Failed task(s)")
     skipped_sec = _section(out_lines, "Skipped task(s)")
     problems = []
@@ -623,19 +652,7 @@ def _run_once(env, deps, par, outcomes, jobs, stop, unknown_mode, choices, tally
     return world.trace
 
 
-def _strip_ansi(s):
-    out = []
-    k = 0
-    while k < len(s):
-        if s[k] == "\033":
-            m = s.find("m", k)
-            if m < 0:
-                break
-            k = m + 1
-        else:
-            out.append(s[k])
-            k += 1
-    return "".join(out)
+_ANSI = re.compile(r"\033\[[0-9;]*m")
 
 
 def _show(ev):
@@ -676,14 +693,15 @@ def _worker(arg):
         sampled = False
         for k in G.shard_range(len(cfgs), shard, nshards):
             deps, par, outcomes = cfgs[k]
+            if env.wd.exhausted:
+                exhaustive = False
+                break
             if deps is not last_deps:
                 last_deps, tc = deps, G.transitive_closure(deps)
-            for jobs in (1, 2, 3):
-                for stop in (False, True):
-                    for unknown_mode in (False, True):
-                        _, ex = _explore(env, deps, par, outcomes, jobs, stop, unknown_mode,
-                                         tally, tc, rng)
-                        exhaustive = exhaustive and ex
+            for jobs, stop, unknown_mode in _run_modes(par):
+                _, ex = _explore(env, deps, par, outcomes, jobs, stop, unknown_mode,
+                                 tally, tc, rng)
+                exhaustive = exhaustive and ex
             if not sampled and len(deps) >= 3 and G.n_edges(deps) >= 2 and any(par):
                 sampled = True
                 for nm in NAMES:
